@@ -27,8 +27,12 @@ def configs(ctx):
         F.Config("rekey-typed-values", ["open_sp", "open_id", "copy", "setkey", "init", "docset", "readsp"], 4 if q else 5, "typed",
                  init_jobs=[FrozenDict(a="i0", b="-"), FrozenDict(a="i1", b="-")], limit=3000 if q else 150000,
                  invariants=("HashInvX",), properties=("NoClobber", "RekeyCarries")),
+        F.Config("rekey-null-values", ["open_sp", "open_id", "update_sp", "setkey", "assign", "init", "readsp"], 4 if q else 5, "nullish", init_jobs=2, limit=3000 if q else 150000,
+                 invariants=("HashInvX",), properties=("NoClobber", "RekeyCarries", "UpdateNoOverwrite")),
+        F.Config("empty-destination", ["open_id", "mkdir_empty", "move", "clone", "setkey", "assign", "docset"], 4 if q else 5, "int", projects=("P", "Q"), init_jobs=2,
+                 limit=4000 if q else 150000, invariants=("HashInvX",), properties=("NoClobber", "MoveKeepsId", "CloneIndependent", "RekeyCarries")),
         F.Config("move-clone", ["open_sp", "open_id", "move", "clone", "setkey", "docset", "writefile", "init", "remove"], 4 if q else 5, "mixed", projects=("P", "Q"),
-                 init_jobs=2, limit=4000 if q else 150000, invariants=("HashInvX",), properties=("NoClobber", "MoveKeepsId", "CloneIndependent", "RekeyCarries")),
+                 init_jobs=2, fvals=("c1", "c2"), limit=4000 if q else 150000, invariants=("HashInvX",), properties=("NoClobber", "MoveKeepsId", "CloneIndependent", "RekeyCarries")),
         F.Config("long-random", rekey + ["writefile", "remove", "move", "clone", "restart"], 0, "int", projects=("P", "Q"), handles=("h1", "h2", "h3"), files=("f1", "f2"),
                  fvals=("c1", "c2"), sim_num=40 if q else 2000, sim_depth=40, invariants=("HashInvX",), properties=("NoClobber", "RekeyCarries", "UpdateNoOverwrite", "MoveKeepsId", "CloneIndependent")),
     ]
